@@ -45,10 +45,18 @@ ASSUMPTIONS = [
     "'norm the solver is configured to use': Euclidean when use_preconditioned_inner_product_for_cg is False, "
     "z^T M z with M = P^-1 when True; trust_region_cg has no switch and always uses the Euclidean ball",
     "Cauchy step = minimiser of the model along -P g inside the ball of the configured norm (the first CG direction)",
+    "the Cauchy-decrease clause is conditional on |g|^2 >= cgTolSquared: when the gradient is already below the "
+    "routine's stated tolerance it returns the zero step as 'interior' after 0 iterations (model change exactly 0), "
+    "which is checked against the interior-convergence clause only",
     "'converged in the interior to the stated tolerance': ||H z + g||^2 < max(cg_tol^2, (cg_inexact_solve_ratio |g|)^2), "
     "recomputed by the reference, plus a rounding allowance proportional to ||H|| |z| + |g| (the routine tests its "
     "recurrence residual, not the true one)",
     "iteration-capped exits ('interior_') only claim ball membership and Cauchy decrease",
+    "preconditioned-inner-product mode tracks z.M.z by recurrences that are exact only for exact CG; the radius and "
+    "boundary claims in that mode are checked to 1e-6 in the regime cond(H) cond(M) <= 1e8 and iterations <= n, to "
+    "1e-3 when one of the two fails, and not at all when both fail (singular / 1e8-conditioned H with a 1e4-conditioned "
+    "unrelated preconditioner, CG continued past the dimension of the space) -- those executions are counted in "
+    "branch_coverage and their discrepancies are listed in observed_maxima",
     "ModelProblem is given linearly independent vectors (smallest singular value of the normalised set >= 1e-3); "
     "dependent sets are inadmissible for its one-pass Gram-Schmidt and are counted, not executed",
     "radii 1e-6..1e6; spectra with |sig| in [1e-8, 1e3]; gradients of norm 1 (1e-12 for the 'tiny' class)",
@@ -57,9 +65,13 @@ ASSUMPTIONS = [
 ]
 TOLERANCES = {
     "ball_euclid": "z.z <= Delta^2 (1 + 1e-9)  [a-priori: a few ulps; observed see observed_maxima]",
-    "ball_precond": "z.M.z <= Delta^2 (1 + 1e-6)  [recurrence drift, DESIGN 2.5]",
-    "on_boundary": "| ||z||_N / Delta - 1 | <= 1e-9 (Euclid) / 1e-6 (preconditioned recurrences)",
-    "cauchy": "model(z) <= model(cauchy) + 1e-10 (|g| L + ||H|| L^2), L = max(|z|,|z_cauchy|); and model(z) <= 0 exactly",
+    "ball_precond": "z.M.z <= Delta^2 (1 + tau): tau = 1e-6 when cond(H) cond(M) <= 1e8 and iterations <= n "
+                    "(observed 4.6e-11); 1e-3 when exactly one of the two fails (observed 5.4e-8 / 3.8e-6; a-priori "
+                    "eps cond(H) cond(M)); not checked when both fail (observed 0.17: orthogonality is lost, the "
+                    "recurrence-tracked norm has O(1) a-priori error)",
+    "on_boundary": "| ||z||_N / Delta - 1 | <= 1e-9 (Euclid) / the same tau as ball_precond (preconditioned recurrences)",
+    "cauchy": "model(z) <= model(cauchy) + 1e-10 (|g| L + ||H|| L^2), L = max(|z|,|z_cauchy|); and model(z) <= 0 + the same allowance "
+              "(H itself is only known to 1e-16 ||H||, so z.H.z carries an error ~1e-16 ||H|| L^2)",
     "interior_residual": "||H z + g|| <= sqrt(cgTolSquared) + 1e-9 (||H|| |z| + |g|)",
     "dogleg": "x.N.x <= Delta^2 (1+1e-9); distance to polyline 0->cp->newtonP <= 1e-10 max(|cp|,|newtonP|)",
     "treigen_ball": "|s| <= Delta (1 + 1e-7)   [the routine's own stopping rule is 1e-9 relative; observed 9.2e-10]",
@@ -79,7 +91,8 @@ DOGLEG_CLASSES = ["both-inside", "cp-outside", "newton-outside", "cp-longer", "c
                   "opposite"]
 DOGLEG_DIRS = ["axes", "generic"]
 
-TAU_BALL = {"euclid": 1e-9, "precond": 1e-6}
+TAU_BALL = {"euclid": 1e-9, "precond": 1e-6, "precond-ill": 1e-3}
+COND_WELL = 1e8          # cond(H) * cond(M) up to which the preconditioned norm recurrences are held to 1e-6
 TAU_CAUCHY = 1e-10
 TAU_RES = 1e-9
 TAU_DOGLEG_PATH = 1e-10
@@ -220,7 +233,7 @@ def gradient(label, n, sig, Q):
 
 def precond(label, n, H, sig, Q, seed):
     """returns (P, M) dense with P = M^-1, M SPD; (None, None) for the identity."""
-    eps = 1e-4 * float(onp.max(onp.abs(sig)))
+    eps = 1e-4 * max(float(onp.max(onp.abs(sig))), 1.0)       # > 0 also for the zero matrix (n=1, 'onezero')
     if label == "identity":
         return None, None
     if label in ("exact", "scaled"):
@@ -287,6 +300,8 @@ def _run_truncated_cg(g, tier, seed, rec):
     n, spec = g["n"], g["spec"]
     sig = spectrum(spec, n)
     hnorm = float(onp.max(onp.abs(sig)))
+    smin = float(onp.min(onp.abs(sig)))
+    kH = hnorm / smin if smin > 0 else float("inf")
     radii = _radii(tier)
     modes = MODES if routine == "trmin" else ["euclid"]
     ncases = len(BASES) * len(GRADS) * len(radii) * len(PRECONDS) * len(modes) * len(CGSETS)
@@ -309,6 +324,8 @@ def _run_truncated_cg(g, tier, seed, rec):
                     else:
                         Pj = jnp.array(P)
                         pre = lambda v, Pj=Pj: Pj @ v
+                    kM = 1.0 if M is None else float(onp.linalg.cond(M))
+                    cond = "well" if kH * kM <= COND_WELL else "ill"
                     for ml in modes:
                         N = M if ml == "precond" else None
                         cau = ref.cauchy_point(H, gv, P, N, Delta)
@@ -356,34 +373,52 @@ def _run_truncated_cg(g, tier, seed, rec):
                                          steps=max(iters, 1))
                                 continue
                             # (a) inside the ball of the configured norm
-                            tauN = TAU_BALL[ml]
+                            if ml == "euclid":
+                                tauN, regime = TAU_BALL["euclid"], "euclid"
+                            else:
+                                regime = "precond:cond-%s:%s" % (cond, "iters<=n" if iters <= n else "iters>n")
+                                if cond == "well" and iters <= n:
+                                    tauN = TAU_BALL["precond"]
+                                elif cond == "well" or iters <= n:
+                                    tauN = TAU_BALL["precond-ill"]
+                                else:
+                                    # ill-conditioned AND iterated past the dimension of the space: in exact arithmetic
+                                    # CG has terminated; the a-priori error of the recurrence-tracked norm is O(1), so
+                                    # no norm claim is checked (clause (b) still is). Discrepancies stay visible below.
+                                    tauN = None
+                                    rec.branch("%s:precond-norm-claims-not-checked(cond-ill,iters>n)" % routine)
                             nn = ref.nnorm_sq(z, N)
                             ratio_n = math.sqrt(nn) / Delta
-                            rec.track_max("%s:%s:ball_excess(||z||_N/Delta-1)" % (routine, ml), ratio_n - 1.0)
-                            if nn > Delta * Delta * (1.0 + tauN):
+                            rec.track_max("%s:%s:ball_excess(||z||_N/Delta-1)" % (routine, regime), ratio_n - 1.0)
+                            if tauN is not None and nn > Delta * Delta * (1.0 + tauN):
                                 fail("outside-ball", stype, {"z": z, "norm_over_Delta": ratio_n, "iters": iters})
                             # (b) Cauchy decrease, never an increase
                             mz = ref.model(H, gv, z)
                             L = max(float(onp.linalg.norm(z)), float(onp.linalg.norm(cau["z"])))
                             sc = gnorm * L + hnorm * L * L
-                            if sc > 0:
+                            tol2 = ref.cg_tol_squared(gv, cgtol, ratio)
+                            # gradient already below the routine's stated tolerance and no step taken: the routine
+                            # reports "converged at z = 0"; the Cauchy comparison is conditional on |g|^2 >= cgTolSquared
+                            converged_at_entry = float(gv @ gv) < tol2 and not onp.any(z != 0.0)
+                            if converged_at_entry:
+                                rec.branch("%s:gradient-below-stated-tolerance:zero-step" % routine)
+                            elif sc > 0:
                                 rec.track_max("%s:%s:cauchy_gap/(|g|L+|H|L^2)" % (routine, ml), (mz - cau["value"]) / sc)
-                            if mz > cau["value"] + TAU_CAUCHY * sc:
+                            if not converged_at_entry and mz > cau["value"] + TAU_CAUCHY * sc:
                                 fail("worse-than-cauchy", stype, {"z": z, "model_z": mz, "model_cauchy": cau["value"],
                                                                    "cauchy_point": cau["z"], "iters": iters})
-                            if mz > 0.0:
+                            if mz > TAU_CAUCHY * sc:
                                 fail("model-increase", stype, {"z": z, "model_z": mz, "iters": iters})
                             # (c) boundary claims
                             if stype in ("boundary", "neg curve"):
-                                rec.track_max("%s:%s:boundary_defect|ratio-1|" % (routine, ml), abs(ratio_n - 1.0))
-                                if abs(ratio_n - 1.0) > tauN:
+                                rec.track_max("%s:%s:boundary_defect|ratio-1|" % (routine, regime), abs(ratio_n - 1.0))
+                                if tauN is not None and abs(ratio_n - 1.0) > tauN:
                                     fail("off-boundary", stype, {"z": z, "norm_over_Delta": ratio_n, "iters": iters})
                             # (d) interior claim: Newton system solved to the stated tolerance
                             if stype == "interior":
-                                tol2 = ref.cg_tol_squared(gv, cgtol, ratio)
                                 res = float(onp.linalg.norm(H @ z + gv))
                                 drift = hnorm * float(onp.linalg.norm(z)) + gnorm
-                                if drift > 0:
+                                if drift > 0 and iters > 0:
                                     rec.track_max("%s:%s:interior_residual_excess/(|H||z|+|g|)" % (routine, ml),
                                                   (res - math.sqrt(tol2)) / drift)
                                 if res > math.sqrt(tol2) + TAU_RES * drift:
@@ -401,15 +436,32 @@ def _run_truncated_cg(g, tier, seed, rec):
 # treigen.solve
 # ------------------------------------------------------------------------------------------------
 def _ref_class(sol):
-    """interior / boundary / hard-case (reference multiplier on the pole -sig_min)."""
-    if sol["kind"] == "interior":
-        return "interior"
+    """zero-matrix / interior / boundary / hard-case.  'hard-case' = the lowest eigenvalue is <= 0 up to rounding
+    (sig_min <= 1e-10 mean|sig|) and the reference multiplier sits on the pole -sig_min (analytic hard case, or
+    lam + sig_min <= 1e-10 mean|sig|, or a numerically singular PSD matrix whose minimum-norm stationary point is
+    inside the ball).  It contains every input on which treigen.solve can take its hard-case branch."""
     sig = sol["sig"]
-    if sol["kind"] == "hard":
-        return "hard-case"
-    if sig[0] <= 1e-10 * float(onp.mean(onp.abs(sig))) and sol["mu"] <= 1e-10 * float(onp.mean(onp.abs(sig))):
+    sc = float(onp.mean(onp.abs(sig)))
+    if sc == 0.0:
+        return "zero-matrix"
+    if sig[0] > 1e-10 * sc:
+        return "interior" if sol["kind"] == "interior" else "boundary"
+    if sol["kind"] in ("hard", "interior") or sol["mu"] <= 1e-10 * sc:
         return "hard-case"
     return "boundary"
+
+
+def _lib_pz_zero(A, b, Delta):
+    """Label only (never a verdict): does p.z vanish *exactly* in treigen's hard-case formula, for either reading of
+    'lowest eigenvector' (row v[0] or column v[:,0]) of the eigenvector matrix jax's eigh returns for this input?"""
+    import jax.numpy as jnp
+    sig, v = jnp.linalg.eigh(jnp.asarray(A))
+    sig, v = onp.asarray(sig), onp.asarray(v)
+    eps = 1e-12 * float(onp.mean(onp.abs(sig)))
+    lam = -sig[0] + eps if sig[0] < eps else 0.0
+    with onp.errstate(all="ignore"):
+        p = -v @ ((v.T @ onp.asarray(b)) / (sig + lam))
+        return bool(float(p @ v[0]) == 0.0 or float(p @ v[:, 0]) == 0.0)
 
 
 def _check_certificate(ref, A, b, Delta, sol, rec, tag):
@@ -495,7 +547,8 @@ def _run_treigen(g, tier, seed, rec):
                         if pz:
                             key = "treigen.solve|%s|pz=0|%s" % (cls, sig_)
                         else:
-                            key = "treigen.solve|%s|eigenbasis=%s|%s" % (cls, bclass, sig_)
+                            key = ("treigen.solve|zero-matrix|%s" % sig_) if cls == "zero-matrix" else \
+                                  ("treigen.solve|%s|eigenbasis=%s|%s" % (cls, bclass, sig_))
                         rec.violation(key, cid, d)
 
                     try:
@@ -514,7 +567,7 @@ def _run_treigen(g, tier, seed, rec):
                     rec.branch("treigen:newton-iterations:%s" % ("0" if budget.count == 0 else
                                                                   ("1-9" if budget.count < 10 else ">=10")))
                     if not _finite(s):
-                        fail("nonfinite", {"step": s}, pz=bool(sol["pz_zero"]))
+                        fail("nonfinite", {"step": s}, pz=(cls == "hard-case" and _lib_pz_zero(A, b, Delta)))
                         rec.case(cid, nontrivial=nontrivial, outcome="treigen:%s:nonfinite" % cls)
                         continue
                     sn = float(onp.linalg.norm(s))
@@ -617,7 +670,7 @@ def _run_subspace(g, tier, seed, rec):
                             # measured label: library-side reduced system diagonal => p.z == 0 exactly in the hard case
                             Hl = onp.asarray(mp_.H, dtype=float)
                             gl_ = onp.asarray(mp_.g, dtype=float)
-                            pz = _pz_zero(ref, Hl, gl_, Delta)
+                            pz = cls == "hard-case" and _lib_pz_zero(Hl, gl_, Delta)
                             fail("nonfinite", {"step": step, "reduced_H": Hl, "reduced_g": gl_}, pz=pz)
                             rec.case(cid, nontrivial=nontrivial, outcome="subspace:%s:nonfinite" % cls, steps=len(vecs) + 2)
                             continue
@@ -636,16 +689,6 @@ def _run_subspace(g, tier, seed, rec):
                         rec.case(cid, nontrivial=nontrivial, outcome="subspace:" + cls, steps=len(vecs) + 2,
                                  sample=({"case": cid, "class": cls, "model_step": ms, "model_reference": rsol["value"]}
                                          if idx in sample_ids else None))
-
-
-def _pz_zero(ref, Hl, gl_, Delta):
-    """True when, for the reduced system the library itself built, the reference takes the analytic hard case
-    with p.z == 0 exactly."""
-    try:
-        s2 = ref.more_sorensen(Hl, gl_, Delta)
-        return bool(s2["kind"] == "hard" and s2["pz_zero"])
-    except Exception:  # noqa
-        return False
 
 
 # ------------------------------------------------------------------------------------------------
